@@ -370,6 +370,36 @@ func opLayout(c *Case) map[string]any {
 		}
 		obs["rep_same"] = same
 		obs["reps"] = reps
+		// the same option LIST reused: a list with spare capacity, a call with a shorter list that shares its backing array in
+		// between (an application that derives per-diagram options from common ones with append) - Layout must leave the list alone
+		if _, want := c.Arg["optlist"]; want {
+			if s2, ok := optionListReuse(c); ok {
+				obs["optlist_same"] = s2
+			}
+		}
 	}
 	return obs
+}
+
+func optionListReuse(c *Case) (same bool, ok bool) {
+	cfg := *c.Cfg
+	var sizes map[string]pg.Size
+	if cfg.Sizes != nil {
+		sizes = sizeMap(&cfg)
+	}
+	opts := buildOptions(&cfg, nil, sizes)
+	if len(opts) < 2 {
+		return true, false
+	}
+	shared := make([]autog.Option, 0, len(opts)+4)
+	shared = append(shared, opts...)
+	defer func() {
+		if e := recover(); e != nil {
+			same, ok = false, true
+		}
+	}()
+	a, _ := json.Marshal(serLayout(autog.Layout(cloneEdges(c.Edges), shared...)))
+	_ = autog.Layout(cloneEdges(c.Edges), shared[:len(shared)-1]...)
+	b, _ := json.Marshal(serLayout(autog.Layout(cloneEdges(c.Edges), shared...)))
+	return string(a) == string(b), true
 }
